@@ -23,6 +23,11 @@ ALLOWED_AXIOMS = {
     "ProofIrrelevance.proof_irrelevance": "Coq.Logic.ProofIrrelevance",
     "propositional_extensionality": "Coq.Logic.PropExtensionality",
     "PropExtensionality.propositional_extensionality": "Coq.Logic.PropExtensionality",
+    # the standard library's axiomatisation of the reals (used only through Flocq on the SPEC side of mini-float theorems)
+    "ClassicalDedekindReals.sig_forall_dec": "Coq.Reals.ClassicalDedekindReals",
+    "ClassicalDedekindReals.sig_not_dec": "Coq.Reals.ClassicalDedekindReals",
+    "sig_forall_dec": "Coq.Reals.ClassicalDedekindReals",
+    "sig_not_dec": "Coq.Reals.ClassicalDedekindReals",
 }
 
 FORBIDDEN_RE = re.compile(
